@@ -252,7 +252,7 @@ def write_scenarios(path, scenarios):
 def run_harness(exe, scenario_file, trace_file, timeout=600):
     env = dict(os.environ)
     env["ASAN_OPTIONS"] = "detect_leaks=0:abort_on_error=0:allocator_may_return_null=1"
-    env["UBSAN_OPTIONS"] = "print_stacktrace=1"
+    env["UBSAN_OPTIONS"] = "print_stacktrace=1:abort_on_error=1"
     env["CATDRV_TIMEOUT"] = str(timeout)
     p = subprocess.run([exe, trace_file, scenario_file], stdout=subprocess.PIPE, stderr=subprocess.PIPE, text=True,
                        timeout=timeout + 30, env=env)
@@ -304,10 +304,10 @@ def tlc(module, cfg=None, workers=1, env=None, timeout=900, heap="4g", extra=(),
     own = metadir is None
     metadir = metadir or scratch_dir("tlcmd-")
     e = dict(os.environ)
-    e["JAVA_TOOL_OPTIONS"] = "-Xmx%s -XX:+UseParallelGC" % heap
+    e["JAVA_TOOL_OPTIONS"] = "-Xmx%s -Xss512m -XX:+UseParallelGC" % heap
     if env:
         e.update(env)
-    cmd = ["timeout", str(timeout), "tlc", "-workers", str(workers), "-metadir", metadir,
+    cmd = ["timeout", str(timeout), "tlc", "-noGenerateSpecTE", "-workers", str(workers), "-metadir", metadir,
            "-config", os.path.join(SPEC, (cfg or module) + ".cfg")] + list(extra) + [os.path.join(SPEC, module + ".tla")]
     try:
         p = subprocess.run(cmd, stdout=subprocess.PIPE, stderr=subprocess.STDOUT, text=True, env=e, cwd=cwd or SPEC)
